@@ -21,6 +21,11 @@ type ZGrid struct {
 	Cell *ZInner
 }
 
+type ZCells struct {
+	Cells [][]*ZInner
+	Names [][]string
+}
+
 type ZTree struct {
 	V     int32
 	Kids  []*ZTree
@@ -43,7 +48,7 @@ func checkClosed(id string, tm map[string]reflect.Type, nm map[string]string, go
 // mutually consistent maps, from witnesses ranging from the zero value to a populated, cyclic one; the maps of
 // one witness suffice to round-trip another value of the type. Map iteration order is explored here.
 func H_C16_extract() {
-	which := vChoice("type", 5)
+	which := vChoice("type", 6)
 	witness := vChoice("witness", 3) // 0: zero value, 1: partly populated, 2: fully populated / cyclic
 	x := vInt32("x")
 	vStepLimit(300000)
@@ -121,6 +126,30 @@ func H_C16_extract() {
 		g, ok := out.(*ZTree)
 		vAssert("suffices-type", ok && len(g.Kids) == 1 && g.Kids[0] != nil && g.Attr["k"] != nil)
 		vAssert("suffices-equal", vAnd(g.V == x, vAnd(g.Kids[0].V == 2, vAnd(g.Kids[0].Named.V == 4, vAnd(g.Named.V == 3, g.Attr["k"].N == 6)))))
+	case 5:
+		w := &ZCells{}
+		if witness == 1 {
+			w.Cells = [][]*ZInner{}
+			w.Names = [][]string{{}}
+		}
+		if witness == 2 {
+			w.Cells = [][]*ZInner{{{N: 1}}}
+		}
+		tm, nm := ExtractTypeNameMap(w)
+		vStepLimit(0)
+		checkClosed("cells", tm, nm, "ZCells", reflect.TypeOf(ZCells{}))
+		checkClosed("inner", tm, nm, "ZInner", reflect.TypeOf(ZInner{}))
+		checkClosed("rows", tm, nm, "[][]*hessian.ZInner", reflect.TypeOf([][]*ZInner{}))
+		checkClosed("row", tm, nm, "[]*hessian.ZInner", reflect.TypeOf([]*ZInner{}))
+		checkClosed("names", tm, nm, "[][]string", reflect.TypeOf([][]string{}))
+		v2 := &ZCells{Cells: [][]*ZInner{{{N: x, S: "a"}, nil}, {}}, Names: [][]string{{"n"}}}
+		bs, err := ToBytes(v2, nm)
+		vAssert("suffices-encode", err == nil)
+		out, err := ToObject(bs, tm)
+		vAssert("suffices-decode", err == nil)
+		g, ok := out.(*ZCells)
+		vAssert("suffices-type", ok && len(g.Cells) == 2 && len(g.Cells[0]) == 2 && g.Cells[0][0] != nil && g.Cells[0][1] == nil && len(g.Names) == 1)
+		vAssert("suffices-equal", vAnd(g.Cells[0][0].N == x, eqStrings(g.Names[0], v2.Names[0])))
 	case 3:
 		// type walk: TypeMapOf on self-referential and mutually recursive types terminates and is closed
 		tm := TypeMapOf(reflect.TypeOf(&ZTree{}))
